@@ -8,7 +8,7 @@ FLAGS=""; DIR=seeded
 while [[ "$1" == --* ]]; do FLAGS="$FLAGS $1"; [ "$1" == "--benign" ] && DIR=benign; shift; done
 NAMES=("$@")
 for k in $(seq 1 $N); do
-  ( c=/tmp/vpar-$$-$k; rm -rf $c; cp -r /verif $c; rm -rf $c/.git $c/build/.lock $c/build/.commit.lock
+  ( c=/tmp/vpar-$$-$k; rm -rf $c; cp -a /verif $c; rm -rf $c/.git $c/build/.lock $c/build/.commit.lock
     mine=(); i=0; for n in "${NAMES[@]}"; do [ $((i % N + 1)) -eq $k ] && mine+=($n); i=$((i+1)); done
     if [ ${#mine[@]} -gt 0 ]; then
       (cd $c && /venv/bin/python tools/run_seeded.py "${mine[@]}" $FLAGS 2>&1 | grep -v conda)
